@@ -29,7 +29,8 @@ def run_family(prop, family, tier, sizes_q, sizes_t, modes, l1, l3_calls, text, 
     run.sample({"L2": {"label": v["label"], "call": {k: x for k, x in v["calls"][-1].items() if k in ("t", "m", "k", "d", "forward", "sym", "P", "Q")}}})
     # L3: large seeded inputs, proxy summaries judged by TLC
     inputs = []
-    l3s = l3_sizes or ([999999, 1000000, 1000003] + ([100000, 10000000] if thorough else []))
+    # 1048579 > 2^20: the first length above a power-of-two block size a chunked implementation might use
+    l3s = l3_sizes or ([999999, 1000000, 1000003, 1048579] + ([100000, 10000000] if thorough else []))
     l3modes = ["uni", "bias", "runsbias", "periodic"] + (["heavy", "dombyte", "step", "alt", "halves", "onehot", "const1"] if thorough else ["heavy"])
     iid = 0
     for n in l3s:
